@@ -356,6 +356,9 @@ Definition sys_step (sc : scfg) (hc : hcfg) (s : sys) (l : slabel) : option sys 
               | Dispatched => Some (set_pc s (PDisp2 KRetry t'))
               | _ => Some (set_pc s (PEnd SNone false))
               end
+            | RErr EIdNotFound =>
+              (* the task is gone (volatile repository): nothing is left to dispatch *)
+              Some (set_pc s (PEnd SNone false))
             | _ => Some (set_pc s (PEnd (SDispatchErr t) true))
             end
           else
